@@ -90,9 +90,18 @@ func runC17(c *vk.Ctx) {
 		r := c.RNG(key)
 		p := c07Profile(r)
 		a := app.Generate(r, p)
-		cfg := genConfig(r, a, "ses1")
+		cfg := genConfigDiff(r, a, "ses1")
+		if i%3 == 0 {
+			cfg.ResetOnEmptyInput = true // the option that makes "empty" inputs special: whitespace-only refused inputs must not count as empty
+		}
 		hist := a.History(r, r.Range(2, 12))
 		refs := refusedInputs(r)
+		if cfg.ResetOnEmptyInput {
+			// more weight on the refused inputs that are "almost empty"
+			refs = append(refs, " ", "  ", "\t", "\n", "\r\n", "\t ", " \n", "\x00", "\v", "\f")
+			refs = append(refs, " ", "\n", "\r\n", "\t")
+			c.Count("cases_with_reset_on_empty_input", 1)
+		}
 		c.Begin(key)
 		for _, drv := range []string{"long", "mem", "fs"} {
 			mk := func() (c17driver, *app.Backend) {
